@@ -10,7 +10,7 @@ import json
 import signal
 import sys
 import traceback
-from typing import Any, List
+from typing import Any, Dict, List, Optional
 
 from .. import infra
 from ..data import U_POOL, get_at, positions, set_at, skeletons
@@ -27,8 +27,13 @@ RULE = (
     "types: grammar of C01 (quick: level<=1 plus the (outer,inner) pairs over one atom; thorough: all pairs over 4 atom "
     "classes) plus every standard-library type with a built-in conversion (uuid, date, datetime, time, Decimal, bytes, Path, "
     "ip addresses / interfaces / networks, re.Pattern, deque) bare and under list / set / Optional / dict value / dict key / "
-    "union / tuple / dataclass field, plus sets of Any and of unions with unhashable images; data: every skeleton, and every skeleton with one position (root included) replaced by each of the wild atoms "
-    "(NaN, +-inf, +-10**400, 2**63, str/int/float/dict/list subclasses, tuple, bytes, bytearray, set, frozenset, complex, "
+    "union / tuple / dataclass field, plus sets of Any and of unions with unhashable images, plus discriminated unions "
+    "(annotated: default / explicit / partial mapping, alternatives declaring the discriminator as a field; inherited "
+    "@discriminator; TypedDict alternatives; TaggedUnion; under List / Optional / Dict) fed with every (body, discriminator "
+    "value incl. unmapped / non-string / unhashable / absent, mapping class of the datum incl. defaultdict and dict "
+    "subclasses with __missing__, OrderedDict, MappingProxyType, UserDict); data: every skeleton, and every skeleton with one position (root included) replaced by each of the wild atoms "
+    "(NaN, +-inf, +-10**400, 2**63, str/int/float/dict/list subclasses, defaultdict / __missing__ dicts / OrderedDict / MappingProxyType / UserDict / UserList / "
+    "UserString / deque / range / generator / Decimal / Fraction / UUID / date objects / Ellipsis / a type / a function, tuple, bytes, bytearray, set, frozenset, complex, "
     "object(), dicts with int/None/tuple/bytes/mixed keys, 60-deep list, unhashable values) and each JSON atom / coercible "
     "string; options: coerce x additional_properties x fall_back_on_default x no_copy (16 vectors at level<=1, 4 at level 2). "
     "Oracle: returns or raises ValidationError whose .errors is computable and json-serialisable; input snapshot (structure, "
@@ -55,6 +60,13 @@ class DictSub(dict):
 
 class ListSub(list):
     pass
+
+
+class MissingDict(dict):
+    """a dict subclass whose lookups never fail (like collections.defaultdict, without inserting)"""
+
+    def __missing__(self, key):
+        return "Cat"
 
 
 def deep_list(n):
@@ -91,6 +103,26 @@ def wild_atoms() -> List[tuple]:
         ("IntSub", lambda: IntSub(1)),
         ("FloatSub", lambda: FloatSub(1.5)),
         ("DictSub", lambda: DictSub({"a": 0})),
+        ("defaultdict", lambda: __import__("collections").defaultdict(str)),
+        ("defaultdict_list", lambda: __import__("collections").defaultdict(list, {"a": 0})),
+        ("defaultdict_tag", lambda: __import__("collections").defaultdict(lambda: "Cat", {"x": 0})),
+        ("missingdict", lambda: MissingDict({"x": 0})),
+        ("ordereddict", lambda: __import__("collections").OrderedDict(a=0)),
+        ("mappingproxy", lambda: __import__("types").MappingProxyType({"a": 0})),
+        ("userdict", lambda: __import__("collections").UserDict({"a": 0})),
+        ("userlist", lambda: __import__("collections").UserList([0])),
+        ("userstring", lambda: __import__("collections").UserString("a")),
+        ("deque", lambda: __import__("collections").deque([0])),
+        ("range", lambda: range(2)),
+        ("generator", lambda: (x for x in [0])),
+        ("Decimal", lambda: __import__("decimal").Decimal("1.5")),
+        ("Fraction", lambda: __import__("fractions").Fraction(1, 2)),
+        ("uuidobj", lambda: __import__("uuid").UUID(int=1)),
+        ("dateobj", lambda: __import__("datetime").date(2020, 1, 2)),
+        ("ellipsis", lambda: ...),
+        ("notimplemented", lambda: NotImplemented),
+        ("type", lambda: int),
+        ("function", lambda: len),
         ("ListSub", lambda: ListSub([0])),
         ("tuple", lambda: (1, 2)),
         ("bytes", lambda: b"x"),
@@ -175,7 +207,7 @@ def _safe_repr(d, wkind):
         return f"<datum containing {wkind}>"
 
 
-def check_one(case, method, d, st, optkey, wkind, depth):
+def check_one(case, method, d, st, optkey, wkind, depth, sig_extra=None):
     before = snap(d)
     kind, out = dc.run_impl(method, d)
     outcome = kind
@@ -190,7 +222,7 @@ def check_one(case, method, d, st, optkey, wkind, depth):
                 signature=(
                     {"kind": "exception", "exc": type(out).__name__, "data": wkind}
                     if wkind.startswith("deep") and isinstance(out, RecursionError)
-                    else {"kind": "exception", "exc": type(out).__name__, "where": where}
+                    else dict({"kind": "exception", "exc": type(out).__name__, "where": where}, **(sig_extra or {}))
                 ),
                 what=f"deserialize raised {type(out).__name__}: {str(out)[:120]} (in {where})",
                 source=case.realize().source,
@@ -331,6 +363,86 @@ def extra_types():
     return out
 
 
+class _WorldCase:
+    """the slice of deser_common.Case that check_one uses, for types written as source"""
+
+    def __init__(self, label, source):
+        self.label = label
+        self.spec = label
+        self._source = source
+
+    def realize(self):
+        return self
+
+    @property
+    def source(self):
+        return self._source
+
+
+def run_discriminated(st):
+    """discriminated unions / classes and tagged unions (they are outside the C01 grammar): every body x every
+    discriminator value (mapped, unmapped, non-string, unhashable, absent) x every mapping class of the datum
+    (dict, dict subclasses with and without __missing__, defaultdict, OrderedDict, non-dict mappings) x options"""
+    import collections
+    import types as _types
+
+    from ..realize import PRELUDE, exec_source
+    from .c13 import DISC_SRC
+
+    mod = exec_source(PRELUDE + DISC_SRC)
+    wrappers = [
+        ("dict", dict),
+        ("DictSub", DictSub),
+        ("defaultdict_str", lambda d: collections.defaultdict(str, d)),
+        ("defaultdict_tag", lambda d: collections.defaultdict(lambda: "Cat", d)),
+        ("defaultdict_list", lambda d: collections.defaultdict(list, d)),
+        ("missingdict", MissingDict),
+        ("ordereddict", collections.OrderedDict),
+        ("mappingproxy", _types.MappingProxyType),
+        ("userdict", collections.UserDict),
+    ]
+    targets = {name: utp for name, (utp, _k, _m, _d) in mod.EXPECT.items()}
+    targets["Tagged1"] = mod.Tagged1
+    targets["ListDefault"] = List[mod.Default]
+    targets["OptInherited"] = Optional[mod.Inherited]
+    targets["DictPet"] = Dict[str, mod.Pet]
+    keyname = {name: k for name, (_u, k, _m, _d) in mod.EXPECT.items()}
+    digest0 = class_digest(mod)
+    for name, utp in targets.items():
+        key = keyname.get(name, "type" if name != "OptInherited" and name != "DictPet" else "kind")
+        mapped = list(mod.EXPECT[name][2]) if name in mod.EXPECT else ["Cat", "Kitten", "a"]
+        keys = mapped[:2] + ["nope", "", 1, None, True, 1.5, (1,), "<absent>", "<list>", "<dict>"]
+        bodies = [{}, {"x": 1}, {"x": "bad"}, {"n": 2, "zz": 0}, {"v": 3}, {"a": 1}, {"a": 1, "b": "s"}]
+        case = _WorldCase("disc:" + name, DISC_SRC)
+        for co, ap, fb, nc in OPTS16:
+            try:
+                method = apischema.deserialization_method(utp, coerce=co, additional_properties=ap, fall_back_on_default=fb, no_copy=nc)
+            except Exception as e:
+                st.violation({"label": case.label, "signature": {"kind": "compile_exception", "exc": type(e).__name__, "world": name}, "what": f"deserialization_method({name}) raised {e!r}"[:300]})
+                break
+            for k in keys:
+                for body in bodies:
+                    for wname, wrap in wrappers:
+                        d0 = dict(body)
+                        if k == "<list>":
+                            d0[key] = [1]
+                        elif k == "<dict>":
+                            d0[key] = {"a": 1}
+                        elif k != "<absent>":
+                            d0[key] = k
+                        d = wrap(d0)
+                        if name == "ListDefault":
+                            d = [d]
+                        elif name == "DictPet":
+                            d = {"k": d}
+                        check_one(case, method, d, st, (co, ap, fb, nc), f"{wname}:{type(k).__name__ if not isinstance(k, str) else k}", 1, {"world": name, "additional_properties": ap})
+            for wkind, mk in WILD:
+                check_one(case, method, mk(), st, (co, ap, fb, nc), wkind, 0, {"world": name, "additional_properties": ap})
+    if class_digest(mod) != digest0:
+        st.violation({"label": "disc", "signature": {"kind": "class_mutated", "shape": "disc"}, "what": "user classes were modified by deserialization", "source": DISC_SRC})
+    st.count("discriminated_worlds", len(targets))
+
+
 def quick_filter(label: str) -> bool:
     """quick tier: level<=1 everything; level 2 only over the 'int' and 'float' atom representatives"""
     return dc.level_of(label) <= 1 or label.endswith("[int]]") or label.endswith("[float]]")
@@ -349,6 +461,8 @@ def work(tier, widx, nworkers, st, extra):
         finally:
             signal.alarm(0)
     only = __import__("os").environ.get("VERIF_ONLY")
+    if widx == (1 % nworkers) and (not only or only.startswith("disc")):
+        run_discriminated(st)
     for j, (label, spec) in enumerate(extra_types()):
         if j % nworkers != widx or (only and only not in label):
             continue
